@@ -156,13 +156,14 @@ func runCorrupt(c CorruptCase) (res vt.Result, fail *vt.Fail) {
 	case "fetch":
 		rc, err := e.repo.Fetch(ctx, desc)
 		if err == nil {
+			if c.Corrupt != "body-flip" {
+				// a digest header, length or media type that contradicts the request
+				// must make the call itself fail
+				rc.Close()
+				return res, bad("Fetch returned a reader")
+			}
 			if f := consistent(desc, rc); f != nil {
 				return res, f
-			}
-			if c.Corrupt != "body-flip" {
-				// header/length corruptions must be refused by the call itself, unless
-				// reading the body to the end reports them
-				return res, nil
 			}
 		}
 	case "fetchref-tag", "fetchref-digest":
